@@ -48,6 +48,8 @@ def Denotes (m e : Int) (v : Nat) : Prop :=
 /-- ASCII digit -/
 def Digit (c : Nat) : Prop := 48 ≤ c ∧ c ≤ 57
 
+instance : DecidablePred Digit := fun c => inferInstanceAs (Decidable (48 ≤ c ∧ c ≤ 57))
+
 /-- separators allowed between digits and before the unit -/
 inductive Sep where
   | sp | us | nbsp
@@ -79,12 +81,8 @@ def UnitOk (u : Bytes) : Prop :=
 def WellFormed (ds : List (Nat × List Sep)) (unit : Bytes) : Prop :=
   ds ≠ [] ∧ (∀ p ∈ ds, Digit p.1) ∧ UnitOk unit
 
-/-- exact outcome of reading a number `v` with unit name `u` (`none` = refused) -/
-def product (v : Nat) (u : Bytes) : Option Nat :=
-  if v = 0 then (if u = [] ∨ u ∈ unitNames ∨ u ∈ bigUnits then some 0 else none)
-  else if u = [] then some v
-  else match mult u with
-    | some m => if v * m < 2 ^ 64 then some (v * m) else none
-    | none => none
+/-- `s` is exactly representable with a `p`-bit binary significand (float32: 24, float64: 53; the
+exponent range is no restriction below 2^64) -/
+def Representable (p s : Nat) : Prop := ∃ m e, m < 2 ^ p ∧ s = m * 2 ^ e
 
 end U.Props.C08
